@@ -3,7 +3,7 @@ from __future__ import annotations
 
 import ast
 
-from ..absint import Cls, Const, Fn, Foreign, Obj, Term, is_call, mentions, run_method, show, subterms
+from ..absint import Cls, Const, Fn, Foreign, Interp, Lst, Obj, Term, is_call, mentions, explore, run_method, show, subterms
 from ..model import Undecided, walk_no_nested
 from .common import path_text
 
@@ -373,16 +373,30 @@ def rule_attach(ctx):
     ok = len(calls) == 1 and len(calls[0].args) == 1 and ast.unparse(calls[0].args[0]) == "self"
     ctx.check(ok, "C14.ATTACH", init.short, "attach_event_handlers(self) called once", "Driver.__init__ does not attach the @on handlers of the instance", fi=init, text="attach")
     on = p.func("indi.device.events.on")
-    wrapper = on.nested.get("wrapper")
-    if wrapper is None:
-        raise Undecided("on.wrapper not found")
-    # one EventHandlerAttachment(s, event_type) appended per source
-    src = ast.unparse(wrapper.node)
-    appends = [n for n in ast.walk(wrapper.node) if isinstance(n, ast.Call) and isinstance(n.func, ast.Attribute) and n.func.attr == "append"]
-    ok = any(isinstance(a.args[0], ast.Call) and ast.unparse(a.args[0].func).endswith("EventHandlerAttachment") and len(a.args[0].args) == 2 and ast.unparse(a.args[0].args[1]) == "event_type" for a in appends if a.args)
-    loops = [n for n in ast.walk(wrapper.node) if isinstance(n, ast.For)]
-    ok = ok and bool(loops) and any(isinstance(r, ast.Return) and ast.unparse(r.value) == "fn" for r in ast.walk(wrapper.node) if isinstance(r, ast.Return))
-    ctx.check(ok, "C14.ATTACH", wrapper.short, "one attachment per source; returns the function", "@on does not record one attachment per source / does not return the function", fi=wrapper, text="on")
+    # @on is evaluated: a list of two sources, then a second decoration with a single source, on one function object
+    from ..absint import Frame
+
+    def run_on(it: Interp):
+        fn = Obj(None, {"__closed__": Const(True)}, label="<fn>")
+        s1, s2, s3 = [Obj(None, {}, label=f"<src{i}>") for i in (1, 2, 3)]
+        et, et2 = Obj(None, {}, label="<ET>"), Obj(None, {}, label="<ET2>")
+        fr = Frame(None, on.module, {})
+        w = it.run_function(Fn(on), [Lst([s1, s2]), et], {})
+        r = it.apply(w, [fn], {}, [], None, fr, False)
+        w2 = it.run_function(Fn(on), [s3, et2], {})
+        r2 = it.apply(w2, [fn], {}, [], None, fr, False)
+        it.res = (r, r2, fn)
+        return Const(None)
+
+    paths = explore(p, run_on, {"inline": lambda fi, node: fi.module.name == "indi.device.events", "instantiate": lambda ci: ci.module.name == "indi.device.events"})
+    ok = len(paths) == 1 and paths[0].outcome == "return"
+    got = None
+    if ok:
+        r, r2, fn = paths[0].interp.res
+        lists = [v for k, v in fn.attrs.items() if isinstance(v, Lst)]
+        got = [(show(o.attrs.get("src")), show(o.attrs.get("event_type"))) for o in lists[0].items if isinstance(o, Obj)] if len(lists) == 1 else None
+        ok = r is fn and r2 is fn and got == [("<src1>", "<ET>"), ("<src2>", "<ET>"), ("<src3>", "<ET2>")]
+    ctx.check(ok, "C14.ATTACH", on.short, "one attachment (source, event type) per source, accumulated over decorations; returns the function", f"@on([s1, s2], ET) followed by @on(s3, ET2) on one function records {got} instead of one (source, event type) attachment per source / does not return the function", fi=on, text="on")
     att = p.func("indi.device.events.attach_event_handlers")
     calls = [n for n in ast.walk(att.node) if isinstance(n, ast.Call) and isinstance(n.func, ast.Attribute) and n.func.attr == "attach_event_handler"]
     ok = len(calls) == 1 and len(calls[0].args) == 2 and ast.unparse(calls[0].args[0]).endswith("event_type")
